@@ -79,6 +79,8 @@ def check(ctx):
     ctx.sub(s4_aggregates)
     from . import c02
     ctx.sub(c02.refused_fill, 'C03.S2')       # reported P&L reflects accepted fills only
+    ctx.sub(c02.s3_presence)                  # a position that still carries exposure stays in the table its P&L is summed from (and a flat one leaves it)
+    ctx.sub(c02.s3_presence_through)
 
 
 def reads_through(caller, callee, depth):
